@@ -12,17 +12,17 @@ import (
 type Kind int
 
 const (
-	KInt    Kind = iota // integers, pointers-as-refs stored in memory, maps, chans, opaque funcs
+	KInt Kind = iota // integers, pointers-as-refs stored in memory, maps, chans, opaque funcs
 	KBool
 	KStr
-	KReal   // float64 idealised as Real (A-FP)
+	KReal // float64 idealised as Real (A-FP)
 	KSlice
 	KStruct // struct value in a register
 	KTuple
 	KIface
-	KPtr    // pointer: to object (S=ref) or to a cell location (Loc)
-	KArr    // array value in a register: S is an (Array Int leaf) term
-	KFunc   // function value: static function + bindings, or opaque S
+	KPtr  // pointer: to object (S=ref) or to a cell location (Loc)
+	KArr  // array value in a register: S is an (Array Int leaf) term
+	KFunc // function value: static function + bindings, or opaque S
 	KUnit
 )
 
@@ -46,8 +46,8 @@ type Val struct {
 	Bind []Val
 }
 
-func intV(t Term, T types.Type) Val  { return Val{K: KInt, S: t, T: T} }
-func boolV(t Term) Val               { return Val{K: KBool, S: t, T: types.Typ[types.Bool]} }
+func intV(t Term, T types.Type) Val { return Val{K: KInt, S: t, T: T} }
+func boolV(t Term) Val              { return Val{K: KBool, S: t, T: types.Typ[types.Bool]} }
 
 // typeName gives a stable short name for region prefixes.
 func typeName(t types.Type) string {
